@@ -195,6 +195,7 @@ class VirtRig:
         self.dep_order = None
         self.int_lines = int_lines   # line-boundary injection: list of global line-event indices
         self.line_count = 0
+        self.line_sites: list = []   # (file, line) of every line event of the counting run
         self.in_worker = 0
         self.max_events = max_events
         self.main_thread = threading.current_thread()
@@ -594,6 +595,8 @@ class VirtRig:
         def local(frame, event, arg):
             if event == 'line' and not rig.in_worker and threading.current_thread() is rig.main_thread:
                 rig.line_count += 1
+                if rig.count_lines:
+                    rig.line_sites.append((frame.f_code.co_filename.rsplit('/', 1)[-1], frame.f_lineno))
                 if rig.line_count in targets:
                     rig.ints_done += 1
                     rig.trace.append({'e': 'int', 'k': rig.ints_done,
